@@ -1122,7 +1122,20 @@ class LiveRun:
                 # the other instance placed it a while ago (it only shows up now, e.g. after a re-subscription)
                 b["placed"] -= int(ev["age"] * 1000)
                 self.res.faults["exchange.sibling_bet.placed_earlier"] += 1
-            self.exchange.emit([b])
+            out = [b]
+            if ev.get("replaced"):
+                # the other instance has replaced its bet already: the original (cancelled) and the replacement share one
+                # customerOrderRef and show up together
+                x = b["remaining"]
+                b["cancelled"], b["remaining"], b["complete"] = round(b["cancelled"] + x, 2), 0.0, True
+                nb = self.exchange._new_bet(
+                    m["id"],
+                    {"selectionId": sel, "side": b["side"], "orderType": "LIMIT", "limitOrder": {"size": x, "price": 970.0 if b["side"] == "BACK" else 1.03, "persistenceType": "LAPSE"}, "handicap": hc, "customerOrderRef": b["ref"]},
+                    {"customerStrategyRef": "simhost"},
+                )
+                out.append(nb)
+                self.res.faults["exchange.sibling_bet.replaced_pair"] += 1
+            self.exchange.emit(out)
             self.res.faults["exchange.sibling_bet"] += 1
             mk = self.fw.markets.markets.get(m["id"])
             if mk is not None and mk.closed:
